@@ -44,7 +44,7 @@ pub fn observer(e: Event) {
     };
     let cb = STORE_CB.with(|c| c.borrow_mut().take());
     if let Some(mut cb) = cb { cb(&ev); STORE_CB.with(|c| { let mut c = c.borrow_mut(); if c.is_none() { *c = Some(cb); } }); }
-    if !matches!(ev, Ev::Spin(_)) { hal::push(ev); }
+    if let Ev::Spin(_) = ev { cosim_spin(); } else { hal::push(ev); }
 }
 
 pub struct Sub {
@@ -429,4 +429,77 @@ pub fn standard_histories(ctx: &mut Ctx, name: &str, nhist: u64) {
         let nops = if size <= 16 { 60 + ctx.rng.below(120) as usize } else { 60 };
         history_dyn(ctx, size, flags, start, nops, 64);
     }
+}
+
+// ------------------------------------------------------------------------------------------------
+// Generic reference device working purely on device memory, and the single-threaded co-simulation
+// used for the blocking helpers (C05): the device runs from inside Transport::notify or from inside
+// the busy-wait hook, according to its servicing policy.
+#[derive(Clone, Copy, PartialEq, Debug)]
+pub enum Policy { OnNotify, Poll(u32), Late(u32) }
+
+pub struct GenDev { pub a: QAddr, pub seen: u16, pub used: u16, pub event_idx: bool, pub served: u64 }
+impl GenDev {
+    /// process every available entry not yet seen; re-arm notification suppression at the new position
+    pub fn service(&mut self) -> u32 {
+        let n = self.a.size;
+        let aidx = hal::dev_read_u16(self.a.drv + 2).unwrap();
+        let mut count = 0;
+        while self.seen != aidx {
+            let slot = (self.seen as usize) & (n - 1);
+            let head = hal::dev_read_u16(self.a.drv + 4 + 2 * slot as u64).unwrap();
+            // total writable length of the chain (bytes are left as they are)
+            let mut total = 0u32; let mut cur = head as usize; let mut steps = 0;
+            if let Some((addr, len, flags, _)) = read_desc(&self.a, cur % n) {
+                if flags & 4 != 0 {
+                    if let Ok(b) = hal::dev_read(addr, len as usize) {
+                        for i in 0..(len as usize / 16) { let d = &b[16 * i..16 * i + 16];
+                            let f = u16::from_le_bytes([d[12], d[13]]);
+                            if f & 2 != 0 { total = total.wrapping_add(u32::from_le_bytes(d[8..12].try_into().unwrap())); } }
+                    }
+                } else {
+                    loop {
+                        if cur >= n { break; }
+                        let (_, l, f, nx) = read_desc(&self.a, cur).unwrap();
+                        if f & 2 != 0 { total = total.wrapping_add(l); }
+                        steps += 1; if f & 1 == 0 || steps > n { break; }
+                        cur = nx as usize;
+                    }
+                }
+            }
+            let uslot = (self.used as usize) & (n - 1);
+            hal::dev_write_u32(self.a.dev + 4 + 8 * uslot as u64, head as u32).unwrap();
+            hal::dev_write_u32(self.a.dev + 8 + 8 * uslot as u64, total).unwrap();
+            self.used = self.used.wrapping_add(1);
+            hal::dev_write_u16(self.a.dev + 2, self.used).unwrap();
+            self.seen = self.seen.wrapping_add(1);
+            count += 1; self.served += 1;
+        }
+        // "tell me about the next entry": avail_event := position of the next entry to come
+        if self.event_idx { hal::dev_write_u16(self.a.dev + 4 + 8 * n as u64, self.seen).unwrap(); }
+        count
+    }
+}
+
+pub struct CoSim { pub dev: GenDev, pub policy: Policy, pub spins: u32, pub notified: u32, pub gave_up: bool }
+thread_local! { pub static COSIM: RefCell<Option<CoSim>> = RefCell::new(None); }
+
+/// called from the busy-wait hook
+pub fn cosim_spin() {
+    let mut hopeless = false;
+    COSIM.with(|c| {
+        if let Some(cs) = c.borrow_mut().as_mut() {
+            cs.spins += 1;
+            match cs.policy {
+                Policy::Poll(k) => { if cs.spins >= k { cs.dev.service(); } }
+                Policy::Late(k) => { if cs.spins >= k { cs.dev.service(); } }
+                Policy::OnNotify => {}
+            }
+            if cs.spins > 2000 { cs.gave_up = true; hopeless = true; }
+        }
+    });
+    if hopeless { panic!("busy-wait can never end: device idle, not notified, not polling"); }
+}
+pub fn cosim_notify() {
+    COSIM.with(|c| { if let Some(cs) = c.borrow_mut().as_mut() { cs.notified += 1; if cs.policy == Policy::OnNotify || matches!(cs.policy, Policy::Late(_)) { if cs.policy == Policy::OnNotify { cs.dev.service(); } } } });
 }
